@@ -6,8 +6,8 @@
 #include <string.h>
 #include <unistd.h>
 #include <assert.h>
-#define MAXT 64
-#define MAXO 256
+#define MAXT 512
+#define MAXO 1024
 enum { OP_NONE, OP_START, OP_LOCK, OP_UNLOCK, OP_CW_REL, OP_CW_ACQ, OP_SIGNAL, OP_CREATE, OP_JOIN, OP_MISC };
 struct vthr { int used, finished, reaped; pthread_t pt; sem_t go; int op, o1, o2; void *(*fn)(void *); void *arg; void *ret; };
 struct vmx { unsigned magic; int id; };
